@@ -34,7 +34,9 @@ from ..spy import run_once_serial  # noqa: E402
 
 SENTINEL = 'SENTINEL-7f3a9c'
 CTX_A = (('k0', SENTINEL), ('k1', 'one'), ('_noview', True), ('_private', 'p'))
+CTX_SA = CTX_A + (('_return_self', True),)
 CTX_B = (('k0', 'other'), ('k1', 'two'), ('_noview', True), ('_private', 'q'), ('extra', 42))
+CTX_SB = CTX_B + (('_return_self', True),)
 CTX_VIEW = (('k0', 'a0'), ('k1', 'a1'), ('_p', 'x'))
 
 
@@ -42,6 +44,8 @@ def expected_ctx(tname: str, label: int, ctx: dict):
     if tname == 'TF':
         keep = f'k{label % 2}'
         ctx = {k: v for k, v in ctx.items() if k == keep or k.startswith('_')}
+    elif tname == 'TG':
+        ctx = dict(ctx, applied=ctx.get('applied', 0) + 1, mine=f'for-{label}')
     return sorted((str(a), repr(b)) for a, b in ctx.items())
 
 
@@ -67,7 +71,7 @@ def bases(tier):
     out = []
     for n in range(1, nmax + 1):
         for shape in all_shapes(n):
-            for types in itertools.product(('TA', 'TF'), repeat=n):
+            for types in itertools.product(('TA', 'TF', 'TG'), repeat=n):
                 spec = mk_spec(shape, types=types)
                 req = tuple((i, False) for i in range(n))
                 for ctx in (CTX_VIEW, CTX_A, None):
@@ -115,7 +119,7 @@ def stored_bytes_case(args):
     orig = lt_base.datetime
     lt_base.datetime = FixedClock
     try:
-        for ctx_t in (CTX_A, CTX_B):
+        for ctx_t in (CTX_SA, CTX_SB):
             spec = mk_spec(shape, types=types)
             built = Built(spec)
             st = MemStorage()
@@ -147,7 +151,7 @@ def real_dump(backend: str, mw: str, dag: int, storage_dir: str):
     silence_labtech()
     U.PARENT_MARK = 'mutated-by-caller'
     shapes = [((), ()), ((), (0,), (0, 1)), ((), (), (0,), (1, 2))]
-    types = [('TA', 'TF'), ('TF', 'TA', 'TF'), ('TA', 'TA', 'TF', 'TF')]
+    types = [('TA', 'TG'), ('TF', 'TG', 'TF'), ('TA', 'TG', 'TF', 'TF')]
     spec = mk_spec(shapes[dag], types=types[dag])
     from ..spec import Built
     built = Built(spec)
@@ -157,6 +161,61 @@ def real_dump(backend: str, mw: str, dag: int, storage_dir: str):
     import multiprocessing
     print(json.dumps({'pid': os.getpid(), 'tid': threading.get_ident(), 'n': spec.n, 'returned': len(res),
                       'parent_start_method': multiprocessing.get_start_method(allow_none=True)}))
+
+
+def real_sequence_dump(order: str, storage_root: str):
+    """Several Labs with different backends used one after the other in ONE caller process."""
+    silence_labtech()
+    U.PARENT_MARK = 'mutated-by-caller'
+    from ..spec import Built
+    import multiprocessing
+    out = []
+    os.makedirs(storage_root, exist_ok=True)
+    for step, backend in enumerate(order.split('-')):
+        spec = mk_spec(((), (0,)), types=('TA', 'TG'), labels=(10 * step, 10 * step + 1))
+        built = Built(spec)
+        lab = labtech.Lab(storage=os.path.join(storage_root, f's{step}'), runner_backend=backend, max_workers=2, notebook=False, context=dict(CTX_VIEW))
+        res = lab.run_tasks(list(built.canon), disable_progress=True, disable_top=True)
+        out.append({'backend': backend, 'labels': list(spec.labels), 'returned': len(res)})
+    print(json.dumps({'pid': os.getpid(), 'tid': threading.get_ident(), 'steps': out}))
+
+
+def real_sequence_case(order: str):
+    tmp = tempfile.mkdtemp(prefix='c16s_')
+    out = []
+    try:
+        wf = os.path.join(tmp, 'world.log')
+        open(wf, 'w').close()
+        rc, so, se = run_isolated([sys.executable, '-m', 'verif_lt.props.c16', '--sequence', order, os.path.join(tmp, 'st')],
+                                  env=py_env(1, VERIF_WORLD_FILE=wf, VERIF_RECORD_ENV=1), timeout=300)
+        d = f'backends used one after the other in one process: {order}'
+        if rc != 0:
+            return [(f'sequence-run-failed', f'{d}: exited {rc}: {se[-500:]}', 1)], 0
+        parent = json.loads(so.strip().splitlines()[-1])
+        envs = [json.loads(l) for l in open(wf) if l.strip()]
+        envs = {tuple(e[3])[1]: e for e in envs if e[2] == 'env'}
+        n = 0
+        for step in parent['steps']:
+            for label in step['labels']:
+                e = envs.get(label)
+                if e is None:
+                    out.append((f'{step["backend"]}:missing-executions', f'{d}: no environment record for label {label}', 1))
+                    continue
+                n += 1
+                pid, ppid, tid, method, mark = e[4], e[5], e[6], e[7], e[8]
+                b = step['backend']
+                if b == 'serial':
+                    if pid != parent['pid'] or tid != parent['tid']:
+                        out.append(('serial:not-callers-thread', f'{d}: label {label} ran in {pid}/{tid}', 1))
+                elif b == 'fork':
+                    if pid == parent['pid'] or ppid != parent['pid'] or mark != 'mutated-by-caller':
+                        out.append(('fork:memory-not-inherited', f'{d}: fork-backend task {label}: pid {pid} ppid {ppid} sees global {mark!r}', 1))
+                else:
+                    if mark != 'import-time' or method != 'spawn' or pid == parent['pid']:
+                        out.append(('spawn:shares-memory', f'{d}: spawn-backend task {label}: start method {method!r}, sees global {mark!r}', 1))
+        return out, n
+    finally:
+        shutil.rmtree(tmp, ignore_errors=True)
 
 
 def real_case(args):
@@ -214,6 +273,9 @@ def _work(item):
         return 'ctx', n, res
     if kind == 'bytes':
         return 'bytes', 1, stored_bytes_case(item[1])
+    if kind == 'seq':
+        out, n = real_sequence_case(item[1])
+        return 'real', n, out
     out, n = real_case(item[1])
     return 'real', n, out
 
@@ -236,7 +298,8 @@ def run(tier: str, seed: int) -> Result:
     mws = (1, 2) if tier == 'quick' else (1, 2, 'None')
     dags = (0, 1) if tier == 'quick' else (0, 1, 2)
     reals = [(b, mw, dg) for b in ('serial', 'fork', 'spawn') for mw in mws for dg in dags]
-    work = [('real', r) for r in reals] + work
+    seqs = ['fork-spawn-fork', 'spawn-fork-serial'] if tier == 'quick' else ['fork-spawn-fork', 'spawn-fork-serial', 'serial-spawn-spawn-fork', 'fork-fork-spawn']
+    work = [('real', r) for r in reals] + [('seq', sq) for sq in seqs] + work
     viols = []
     n_ctx = n_bytes = n_real = 0
     for kind, n, res in pmap(_work, work):
@@ -254,7 +317,7 @@ def run(tier: str, seed: int) -> Result:
         'rule': ('context: all DAG shapes n<=3 x per-node type {identity filter, per-parameter filter} x 3 contexts x {cold, one node pre-cached} on the coordinator seam '
                  '(default schedule + every single deviation), the real SerialRunner and the real fork/spawn ProcessRunner over the virtual OS (which also records the start '
                  'method requested for every worker); stored bytes: every shape n<=3 x 3 types run under two different contexts with a fixed clock; process model: '
-                 f'{len(reals)} real runs (serial/fork/spawn x max_workers x DAG) reporting pid, ppid, thread, start method and a parent-mutated module global from inside run(); '
+                 f'{len(reals)} real runs (serial/fork/spawn x max_workers x DAG) and {len(seqs)} sequences of different backends in one caller process reporting pid, ppid, thread, start method and a parent-mutated module global from inside run(); '
                  'distinct_nontrivial = configurations'),
         'samples': [bs[0].brief(), {'real_run': list(reals[0])}, {'real_run': list(reals[-1])}],
         'context_executions': n_ctx, 'stored_bytes_cases': n_bytes, 'real_task_environment_records': n_real,
@@ -277,3 +340,5 @@ def replay(payload) -> int:
 if __name__ == '__main__':
     if len(sys.argv) >= 6 and sys.argv[1] == '--real':
         real_dump(sys.argv[2], sys.argv[3], int(sys.argv[4]), sys.argv[5])
+    elif len(sys.argv) >= 4 and sys.argv[1] == '--sequence':
+        real_sequence_dump(sys.argv[2], sys.argv[3])
